@@ -215,12 +215,17 @@ func buildResponse(s Sched, ds resolve.DataSource) (*resolve.GraphQLResponse, []
 }
 
 // expected evaluates the same data sources in dependency order without any loader.
-func expected(ids []int, deps [][]int, fail map[int]bool) string {
+func expected(ids []int, deps [][]int, fail map[int]bool, ghost map[int]bool) string {
 	val := map[int]any{}
 	var eval func(f int) any
 	eval = func(f int) any {
 		if v, ok := val[f]; ok {
 			return v
+		}
+		if ghost[f] {
+			// a request whose fetch path selects no item has nowhere to merge: its field stays null
+			val[f] = nil
+			return nil
 		}
 		in := map[string]any{}
 		for _, d := range deps[f-1] {
@@ -261,7 +266,11 @@ func runSchedule(s Sched, evw *bufio.Writer) Result {
 	calls := map[int]int{}
 	ds := gatedDS{gate: gate, fail: fail, mu: mu, calls: calls}
 	resp, ids := buildResponse(s, ds)
-	res.ExpectData = expected(ids, s.Deps, fail)
+	ghost := map[int]bool{}
+	for _, f := range s.Ghost {
+		ghost[f] = true
+	}
+	res.ExpectData = expected(ids, s.Deps, fail, ghost)
 
 	resolve.VerifHook = func(point string, a, b uint64) {
 		if ftgate.KnownPoint(point) { // hooks of other checks share resolve.VerifHook
